@@ -41,8 +41,19 @@ RichGen(d, j) ==
   ELSE LET k == RichOrder[((j - 1) \div 4) + 1]
            v == (j - 1) % 4
        IN RichGen([d EXCEPT ![k] = Append(@, Tmpl(k, v, IdxOf(j), Str(4), Str(5), IdxSeq(d.f)))], j + 1)
-RichDb == RichGen([id |-> FileId, lib |-> <<114, 105, 99, 104>>, hash |-> <<113, 120, 54, 104>>, mod |-> <<109, 111, 100>>]
-                  @@ EmptyTables, 1)
+RichDb0 == RichGen([id |-> FileId, lib |-> <<114, 105, 99, 104>>, hash |-> <<113, 120, 54, 104>>, mod |-> <<109, 111, 100>>]
+                   @@ EmptyTables, 1)
+\* ... plus one record per kind with EVERY flag bit set, so that each bit of QF is told apart from its neighbours
+AllBits(k, j, flags) == [Tmpl(k, 1, IdxOf(j), Str(4), Str(5), <<>>) EXCEPT !.flags = flags]
+RichDb ==
+  [RichDb0 EXCEPT
+     !.f = Append(@, AllBits("f", 25, 2047)),
+     !.w = Append(@, [AllBits("w", 26, 127) EXCEPT !.params = <<[name |-> <<112>>, flags |-> 7, type |-> 8]>>]),
+     !.t = Append(Append(@, [AllBits("t", 27, 67108863) EXCEPT !.asize = 5, !.derivs = <<[flags |-> 7, base |-> 8, up |-> 11, down |-> 14]>>]),
+                  \* and one with every second bit (the array bit clear)
+                  [AllBits("t", 28, 11184810) EXCEPT !.asize = 1]),
+     !.m = Append(@, AllBits("m", 29, 7)),
+     !.e = Append(@, AllBits("e", 30, 1023))]
 RichScenarios == {[name |-> "rich", gen |-> TRUE, files |-> <<WriteDb(BaseDb, 3), WriteDb(RichDb, 3)>>],
                   [name |-> "empty", gen |-> TRUE, files |-> <<>>]}
 
